@@ -1992,6 +1992,19 @@ class Exec:
         self.returns.append((self.guard, v, dict(self.heap)))
         self.guard = z3.BoolVal(False)
 
+    def dead(self, c):
+        """py_mode: the condition cannot hold under the facts of the current path (requires, call facts, guard) - a
+        cheap solver query; `unknown` counts as reachable.  Keeps a branch the contract excludes (for example
+        `if self.missing_values and ...` under requires self.missing_values==0) from turning the variables it rebinds
+        into opaque merges."""
+        if not self.c.py_mode or z3.is_true(z3.simplify(c)):
+            return False
+        sv = z3.Solver()
+        sv.set("timeout", 300)
+        sv.add(*self.facts)
+        sv.add(self.guard, c)
+        return sv.check() == z3.unsat
+
     def st_If(self, s):
         c = self.to_bool(self.ev(s.test))
         g0 = self.guard
@@ -2630,6 +2643,11 @@ Exec.ev_Call = _ev_call_with_spec
 def _st_if(self, s):
     c = self.to_bool(self.ev(s.test))
     sc = z3.simplify(c)
+    if not z3.is_true(sc) and not z3.is_false(sc) and not z3.is_false(self.guard):
+        if self.dead(c):
+            sc = z3.BoolVal(False)
+        elif self.dead(z3.Not(c)):
+            sc = z3.BoolVal(True)
     if z3.is_true(sc):
         return self.block(s.body)
     if z3.is_false(sc):
